@@ -28,9 +28,10 @@ def cases(draw, tier="quick"):
     big = tier == "thorough"
     spec = draw(st.one_of(mdp_specs("discounted", max_states=6 if big else 5),
                           mdp_specs("discounted", max_states=6 if big else 5, gammas=NEAR_ONE),
+                          mdp_specs("discounted", max_states=6 if big else 5, extreme=True),
                           mdp_specs("negative", max_states=6 if big else 5)))
     pol = draw(policy_specs(spec))
-    return {"mdp": spec, "policy": pol}
+    return {"mdp": spec, "policy": pol, "perm_seed": draw(st.integers(0, 5))}
 
 
 def prop_eval(case, ctx):
@@ -38,6 +39,20 @@ def prop_eval(case, ctx):
     mdp, view = build_mdp(spec)
     ref = RefMDP(spec)
     policy = build_tabular_policy(spec, polspec, mdp, view)
+    ps = case.get("perm_seed", 0)
+    if ps:
+        # the same policy with its own column / row order (as from_dict or a dict-version planner would give)
+        import random as _r
+        from msdm.core.mdp import TabularPolicy
+        sl, al = list(mdp.state_list), list(mdp.action_list)
+        rr = _r.Random(ps)
+        sl2, al2 = sl[:], al[:]
+        rr.shuffle(sl2)
+        rr.shuffle(al2)
+        arr = np.array(policy)
+        data = np.array([[arr[sl.index(s), al.index(a)] for a in al2] for s in sl2])
+        policy = TabularPolicy.from_state_action_lists(state_list=sl2, action_list=al2, data=data)
+        ctx.event("policy_with_own_order")
     res = ctx.call("C02.raises", policy.evaluate_on, mdp)
     n, m, gamma = ref.n, ref.m, ref.gamma
     pi = np.zeros((n, m))
@@ -120,5 +135,5 @@ def prop_eval(case, ctx):
     ctx.nontrivial(nt)
 
 
-PROPS = [Prop("evaluate", lambda tier: cases(tier), prop_eval, quick=8000, thorough=150000,
+PROPS = [Prop("evaluate", lambda tier: cases(tier), prop_eval, quick=8000, thorough=450000,
               doc="TabularPolicy.evaluate_on vs independent linear-solve / closed-class oracle")]
